@@ -98,7 +98,7 @@ def obligations(tier: str):
                 add(f"tree_{dec}_{fxn}_create", fixture=fxn, rep="tree", decider=dec, max_depth=md)
     for fxn in ("f1", "f2", "f3"):
         add(f"tree_grow_{fxn}_mutate", fixture=fxn, rep="tree", decider="grow", max_depth=2, ops=["mutate"])
-        if T:
+        if T and fxn != "f2":  # f2 (lists): 570 paths without a failing one, not exhausted in 2000 s
             add(f"tree_grow_{fxn}_crossover", fixture=fxn, rep="tree", decider="grow", max_depth=2, ops=["crossover"])
     add("tree_grow_f14_create", fixture="f14", rep="tree", decider="grow", max_depth=2, timeout=200)
     add("tree_grow_f14_mutate", fixture="f14", rep="tree", decider="grow", max_depth=2, ops=["mutate"], timeout=300) if T else None
